@@ -65,6 +65,7 @@ type parser_ struct {
 	source_ string                   // The original source code.
 	tokens_ col.QueueLike[TokenLike] // A queue of unread tokens from the scanner.
 	next_   col.StackLike[TokenLike] // A stack of read, but unprocessed tokens.
+	eof_    bool                     // Whether the end-of-file marker has been read.
 }
 
 // Attributes
@@ -82,9 +83,14 @@ func (v *parser_) ParseSource(source string) (collection any) {
 	v.source_ = source
 	v.tokens_ = col.Queue[TokenLike](notation).MakeWithCapacity(parserClass.queueSize_)
 	v.next_ = col.Stack[TokenLike](notation).MakeWithCapacity(parserClass.stackSize_)
+	v.eof_ = false
 
 	// The scanner runs in a separate Go routine.
 	Scanner().Make(v.source_, v.tokens_)
+
+	// Never leave the scanner blocked on a full token queue (for example when
+	// a syntax error ends the parsing early).
+	defer v.discardTokens()
 
 	// Attempt to parse a collection.
 	var token TokenLike
@@ -128,6 +134,23 @@ func (v *parser_) checkLiteral(token TokenLike, err error) {
 		message += "The literal cannot be represented: " + err.Error() + "\n"
 		panic(message)
 	}
+}
+
+func (v *parser_) discardTokens() {
+	if v.eof_ {
+		// The scanner has already delivered its last token.
+		return
+	}
+	var tokens = v.tokens_
+	go func() {
+		// Read the remaining tokens so that the scanner can run to its end.
+		for {
+			var token, ok = tokens.RemoveHead()
+			if !ok || token.GetType() == EOFToken {
+				return
+			}
+		}
+	}()
 }
 
 func (v *parser_) formatError(token TokenLike) string {
@@ -186,6 +209,9 @@ func (v *parser_) getNextToken() TokenLike {
 	var token, ok = v.tokens_.RemoveHead() // This will wait for a token.
 	if !ok {
 		panic("The token channel terminated without an EOF token.")
+	}
+	if token.GetType() == EOFToken {
+		v.eof_ = true
 	}
 
 	// Check for an error token.
